@@ -723,13 +723,17 @@ func (m *Machine) bytesEq(a, b []*Term) *Term {
 // sortSlice: insertion sort over the real cells using the real less closure (forks on comparisons).
 func (m *Machine) sortSlice(s SliceVal, less *Closure) {
 	n := s.Len
-	if n > 8 {
-		m.unsupported("sort.Slice with more than 8 elements")
-	}
 	tt := m.tt
 	for i := 1; i < n; i++ {
 		for j := i; j > 0; j-- {
 			r := m.callFn(less.Fn, []Value{tt.Const(uint64(j), 64), tt.Const(uint64(j-1), 64)}, less.Bind).(*Term)
+			if n > 8 {
+				// large slices only with comparisons that are decided (no forking): a symbolic order of more
+				// than 8 elements would fork factorially
+				if _, ok := evalConst(r); !ok {
+					m.unsupported("sort.Slice with more than 8 elements and a symbolic order")
+				}
+			}
 			if !m.branch(r) {
 				break
 			}
